@@ -47,6 +47,9 @@ HAND = [
     'c1ccc(cc1)P(c1ccccc1)c1ccccc1', 'O=C1NC(=O)c2ccccc12', 'Cc1ccccc1', 'C', 'O', '[H][H]', '[He]',
 ]
 
+IONS = ['C[n+]1ccn(CC)c1.[Cl-]', 'C[n+]1ccn(C)c1', 'CCn1cc[n+](C)c1', 'CCCC[n+]1ccn(C)c1.F[B-](F)(F)F', 'C[n+]1cccn1CC', 'CN(C)C=[N+](C)CC',
+        'C[N+](C)=CN(C)CC', 'c1cc[nH+]cc1', 'C[n+]1ccccc1', '[cH-]1cccc1.[cH-]1cccc1.[Fe+2]', 'CC(=[NH2+])N', 'NC(N)=[NH2+]', 'C[n+]1ccn(CC)c1C']
+
 REACTIONS = ['CC(=O)O.OCC>>CC(=O)OCC.O', '[CH3:1][Br:2].[OH-:3]>>[CH3:1][OH:3].[Br-:2]', 'C=C.C=CC=C>>C1CCC=CC1', 'CCO>[Na+].[OH-]>CC=O',
              'c1ccccc1Br.OB(O)c1ccccc1>[Pd]>c1ccccc1-c1ccccc1', '[Na+].[Cl-].O>>O.[Na+].[Cl-]',
              # spectator molecules: remove_reagents moves them to the reagents
@@ -215,10 +218,26 @@ def observe_ops(m, env):
     """operations that change the molecule: each on its own copy; result + molecule afterwards"""
     o = {}
     n = len(m._atoms)
+    stale = []
+
+    def answers(x):
+        return ser((str(x), x.smiles_atoms_order, x.atoms_order, x.sssr, x.rings_count, sorted(sorted(c_) for c_ in x.connected_components),
+                    [(a.charge, a.is_radical, a.implicit_hydrogens, a.hybridization, a.ring_sizes, a.in_ring) for _, a in x.atoms()]))
     for name, kw in OPS:
         def one():
             c = m.copy()
+            str(c), c.atoms_order, c.sssr          # the operation starts from a warm cache, as in a pipeline
             r = getattr(c, name)(**kw)
+            # whatever the operation left in the cache, the object must answer like a fresh copy of itself (and be equal to it)
+            try:
+                mine, fresh = answers(c), answers(c.copy())
+                if mine != fresh:
+                    stale.append({'observable': f'op:{name} (object after the operation vs its fresh copy)', 'first': fresh[:600], 'other': mine[:600]})
+                elif not (c == c.copy()):
+                    stale.append({'observable': f'op:{name} (object after the operation != its copy)', 'first': 'equal', 'other': 'unequal'})
+            except Exception as e:
+                if not isinstance(e, (TypeError, KeyError, ValueError)):      # molecules with valence errors cannot always be spelled
+                    raise
             return (r, str(c), list(c._atoms), bonds_dump(c))
         o[f'op:{name}{kw if kw else ""}'] = safe(one)
     if n <= 28:
@@ -279,7 +298,6 @@ def observe_ops(m, env):
             except Rejected:
                 pass
         return action
-    stale = []
     if ks:
         edit('remap+100', lambda c: c.remap({k: k + 100 for k in ks}))
         edit('add_atom+add_bond', lambda c: c.add_bond(c.add_atom('C'), ks[0], 1))
@@ -629,7 +647,7 @@ def worker(spec_path, out_path):
     for idx, (tag, smi) in enumerate(spec['molecules']):
         def parse():
             m = smiles(smi)
-            if m is not None and tag.startswith(('corpus', 'gen')):
+            if m is not None and tag.startswith(('corpus', 'gen', 'ion')):
                 m.canonicalize()          # corpus inputs are observed in standardised form, hand-made ones as parsed
             if m is not None:
                 m.meta.update({'zeta': 'z', 'alpha': smi, 'name': tag})
@@ -645,7 +663,7 @@ def worker(spec_path, out_path):
         first = observe_reads(m, env)
         ops = observe_ops(m, env)                           # operations on copies: m itself must stay untouched
         for d in json.loads(ops.pop('__stale__')):
-            intra.append(dict(d, input=tag, variant='fresh copy after the edit' if d['observable'].startswith('edit') else 'that attribute read first on a fresh copy'))
+            intra.append(dict(d, input=tag, variant='fresh copy after the edit' if d['observable'].startswith(('edit', 'op:')) else 'that attribute read first on a fresh copy'))
         if instrumented:         # one pass over every observable is enough to execute the code; the comparisons are for the others
             first.update(ops)
             obs[tag] = first
@@ -817,6 +835,11 @@ def build_spec(ck):
     quick = ck.tier == 'quick'
     rng = random.Random(f'{ck.seed}:c19')
     mols = [('hand:' + s, s) for s in HAND]
+    # cations whose charge position is decided by Morgan ranks inside standardize_charges (imidazolium / pyrazolium / amidinium
+    # type, ionic liquids), ferrocene-type anions: observed as parsed (hand:) and after canonicalize() (ion:)
+    for s in IONS:
+        mols.append(('hand:' + s, s))
+        mols.append(('ion:' + s, s))
     pool = corpus.sample(corpus.lipo(), 24 if quick else 500, ck.seed, 'c19')
     for s in pool:
         mols.append(('corpus:' + s, s))
@@ -830,7 +853,7 @@ def build_spec(ck):
             parts.append(s if s in ('B', 'C', 'N', 'O', 'F', 'P', 'S', 'Cl', 'Br', 'I') and rng.random() < 0.7 else f'[{s}]')
         sep = rng.choice(['', '', '.'])
         mols.append((f'gen:{i}', sep.join(parts)))
-    model_inputs = [t for t, s in mols if t.startswith('hand:')][:44] + [t for t, s in mols if t.startswith('corpus:') and len(s) < 40][: (12 if quick else 120)]
+    model_inputs = [t for t, s in mols if t.startswith('ion:')] + [t for t, s in mols if t.startswith('hand:')][:44] + [t for t, s in mols if t.startswith('corpus:') and len(s) < 40][: (12 if quick else 120)]
     test_dir = os.path.join(common.REPO, 'test')
     sdf = sorted(os.path.join(test_dir, f) for f in os.listdir(test_dir) if f.endswith('.sdf'))[: (3 if quick else 8)] if os.path.isdir(test_dir) else []
     history_inputs = [tg for tg, s in mols if tg.startswith('hand:')][::3][: (25 if quick else 80)] + [tg for tg, s in mols if tg.startswith('corpus:')][: (3 if quick else 60)]
@@ -1091,7 +1114,8 @@ def memo_cases(ck, rng):
             return v
         return int.from_bytes(hashlib.blake2b(ser(v).encode(), digest_size=4).digest(), 'big')   # an int code of the value
     cases, meta = [], []
-    for smi in ['c1ccccc1C', 'C1CC1C1CCCCC1', 'CC(=O)O.[Na+]', 'C[C@H](N)C(=O)O', 'C12C3C4C1C5C2C3C45']:
+    for smi in ['c1ccccc1C', 'C1CC1C1CCCCC1', 'CC(=O)O.[Na+]', 'C[C@H](N)C(=O)O', 'C12C3C4C1C5C2C3C45', 'C[n+]1ccn(CC)c1.[Cl-]', 'CCn1cc[n+](C)c1',
+                'CC(=O)[O-].C[NH3+]']:
         for h in range(6 if ck.tier == 'quick' else 30):
             m = smiles(smi)
             # states: 0 = as parsed, then one more per edit; the table `derive` lists, per state, the uncached value of every key
@@ -1110,10 +1134,22 @@ def memo_cases(ck, rng):
                     else:
                         ops.append(f'Read {k}%nat')
                     observed.append(value(m, props[k]))
-                elif r < 0.75:
+                elif r < 0.7:
                     ops.append('Flush')
                     m.flush_cache()
-                elif r < 0.87:
+                elif r < 0.83:
+                    # a standardisation-family operation in place: whatever it caches while working, reads afterwards must equal those
+                    # of a fresh copy of the result (a state change in the model, possibly to an equal state)
+                    opn = rng.choice(['canonicalize', 'standardize_charges', 'standardize', 'neutralize', 'kekule', 'thiele', 'fix_resonance'])
+                    try:
+                        getattr(m, opn)()
+                    except Exception:
+                        pass
+                    states.append([value(m.copy(), k) for k in props])
+                    cur = len(states) - 1
+                    ops.append(f'Mutate (fun _ => {cur}%nat)')
+                    ck.count('memo histories: standardisation operations in place')
+                elif r < 0.9:
                     n = m.add_atom('C')
                     m.add_bond(n, next(iter(m._atoms)), 1)
                     states.append([value(m.copy(), k) for k in props])
